@@ -42,7 +42,7 @@ LEVEL_NOTE = ("Trusted: Coq kernel; AST translator; extraction + driver (cross-c
               "append, whole-process crash, lock semantics. Partial: real kill timing / partial OS writes.")
 TECHNIQUE = "machine-checked proof in Rocq (Coq) of a transition system with crashes + AST re-translation (GenEq) + trace validation with crash injection"
 
-INP = {"s1": 3, "s2": 4, "subject_name": 6, "s0": 1, "s9": 2, "n8": 5}
+INP = {"s1": 3, "s2": 4, "subject_name": 6, "s0": 1, "s9": 2, "n8": 5, 'q"1': 4, "t\tb": 5}     # the last two: names the tsv writer quotes
 INITS = [("absent", None), ("empty", None), ("header", None), ("rows", [["s0", 1]]), ("rows", [["s0", 1], ["s9", 2]])]
 STALE = [None, ["zz"], ["s1"]]
 NCTOR = 10
@@ -95,17 +95,21 @@ def run(ctx):
     scens = []
     for init, rows in INITS:
         for stale in STALE:
-            for name in ("s1", "subject_name"):
-                if name == "subject_name" and (stale is not None or not full and init in ("empty", "header")):
+            for name in ("s1", "subject_name", 'q"1', "t\tb"):
+                if name != "s1" and (stale is not None or not full and init in ("empty", "header")):
                     continue
                 scens += crash_cases([ev(name)], [0] * 9, init, rows, stale)
+    # the same with ONE evaluator object shared by all sessions and the timing column switched on (setup 9): a restart with the
+    # same arguments must be accepted and complete the file
+    for init, rows in INITS[:3]:
+        scens += crash_cases([ev("s1")], [0] * 9, init, rows, None, h=9)
     go(scens, "1 call: crash at every scheduling point (constructor and call) x 4 initial states x 3 stale-buffer states, restart", True)
     # ---- one call + statistics reader / two calls: sampled interleavings, every crash point
     scens = []
     inter2 = list(A.interleavings([9, 9]))
     for sched in rng.sample(inter2, ctx.scale(6, 700)):
         init, rows = rng.choice(INITS)
-        calls = rng.choice([[ev("s1"), ev("s2")], [ev("s1"), ev("s1")], [ev("s1"), ev("s0")]])
+        calls = rng.choice([[ev("s1"), ev("s2")], [ev("s1"), ev("s1")], [ev("s1"), ev("s0")], [ev('q"1'), ev('q"1')], [ev("t\tb"), ev("s1")]])
         scens += crash_cases(calls, sched, init, rows, rng.choice(STALE))
     for sched in rng.sample(list(A.interleavings([9, 3])), ctx.scale(4, 220)):
         init, rows = rng.choice(INITS)
